@@ -207,6 +207,9 @@ theorem elabVal_fix (e : Emb) (f : TakeFacts) : ∀ (p : Path) (t pf : FTy) (v :
     | int =>
       simp only [extractTy, structOf] at h
       by_cases hr : r.isEmpty = true <;> simp [hr] at h
+    | opq k n =>
+      simp only [extractTy, structOf] at h
+      by_cases hr : r.isEmpty = true <;> simp [hr] at h
 
 theorem elabVal_nil (f : TakeFacts) : ∀ (p : Path) (a : Taken), elabVal [] f a p = p := by
   intro p
@@ -273,7 +276,7 @@ theorem assign_of_validated_R (f : TakeFacts) (pt st : FTy) (v : FVal) (m : Mapp
         · simp only [hpI, if_true, Option.some.injEq] at hv
           subst hv
           cases a with
-          | none => simp [runtimeCheck] at hc
+          | none => simp only [runtimeCheck] at hc; simp [store, hc]
           | some x => obtain ⟨ty, w⟩ := x; simp only [runtimeCheck] at hc; simp [store, hc]
         · simp only [hpI, if_false, Bool.false_eq_true] at hv
           have hpI' : pI = false := by simpa using hpI
@@ -294,7 +297,7 @@ theorem assign_of_validated_R (f : TakeFacts) (pt st : FTy) (v : FVal) (m : Mapp
               · simp only [h1, h2, h3, if_false, if_true, Option.some.injEq] at hv
                 subst hv
                 cases a with
-                | none => simp only [runtimeCheck, Bool.not_false, Bool.true_and] at hc; simp [store, hc]
+                | none => simp only [runtimeCheck] at hc; simp [store, hc]
                 | some x => obtain ⟨ty, w⟩ := x; simp only [runtimeCheck] at hc; simp [store, hc]
               · simp [h1, h2, h3] at hv
 
@@ -380,9 +383,12 @@ theorem edgesMapR_src (f : TakeFacts) (vf : ValidateFacts) (allow : Bool) (st : 
     | error err => rfl
     | ok l =>
       simp only []
-      cases checkE vf e.pt st e.ms l with
-      | false => rfl
-      | true => cases edgesMap f vf allow st rest <;> rfl
+      cases checkPanicE vf e.pt st e.ms l with
+      | true => rfl
+      | false =>
+        cases checkE vf e.pt st e.ms l with
+        | false => rfl
+        | true => cases edgesMap f vf allow st rest <;> rfl
 
 /-- the extraction path agrees with the declared source path wherever the static check relied on
     the static type of the source slot -/
@@ -400,7 +406,7 @@ theorem edgesMapR_ok (allow : Bool) (st : FTy) (rp : Edge → Mapping → Path) 
   | nil => intro l _ _ h; simp [edgesMapR] at h; subst h; simp
   | cons e rest ih =>
     intro l hval hag h x hx d
-    simp only [edgesMapR] at h
+    simp only [edgesMapR, checkPanicE_expected, Bool.false_eq_true, if_false] at h
     cases hf : fieldMapR Expected.C15.take allow e.pt e.v (rp e) e.ms with
     | error err => simp [hf] at h
     | ok le =>
@@ -438,7 +444,7 @@ theorem edgesMapR_no_panic (allow : Bool) (st : FTy) (rp : Edge → Mapping → 
   induction es with
   | nil => simp [edgesMapR]
   | cons e rest ih =>
-    simp only [edgesMapR]
+    simp only [edgesMapR, checkPanicE_expected, Bool.false_eq_true, if_false]
     have hnp := fieldMapR_no_panic allow e.pt e.v (rp e) e.ms
     cases hf : fieldMapR Expected.C15.take allow e.pt e.v (rp e) e.ms with
     | error err => simp only [ne_eq, Except.error.injEq]; intro he; subst he; exact hnp hf
